@@ -225,12 +225,16 @@ class C21(Check):
     def gen(self, rng, tier):
         q = gen_qp(rng)
         plan = {'qp': q, 'fault': None, 'twin_scaling': rng.random() < 0.3}
+        if rng.random() < 0.3:
+            # a second run_driver on the same Problem after a parameter that is not a design variable (the
+            # target of the objective) was moved with set_val: nothing of the first run may answer for it
+            plan['second'] = {'t2': [dyadic(rng, -3, 3, 2) for _ in q['t']]}
         if rng.random() < 0.25:
             plan['fault'] = {'method': rng.choice(['compute', 'compute', 'compute_partials']), 'n': rng.randint(1, 12),
                              'kind': rng.choice(['analysis_error', 'nan'])}
         return plan
 
-    def _solve(self, q, fault, log, st, faults):
+    def _solve(self, q, fault, log, st, faults, second=None):
         import openmdao.api as om
         L, t = np.array(q['L']), np.array(q['t'])
         counts = {'compute': 0, 'compute_partials': 0}
@@ -241,8 +245,9 @@ class C21(Check):
             def setup(self):
                 n = len(t)
                 self.add_input('x', np.zeros(n), units='m' if q['units'] else None)
+                self.add_input('tgt', t.copy())          # a parameter of the model, not a design variable
                 self.add_output('f', 0.0)
-                self.declare_partials('f', 'x')
+                self.declare_partials('f', ['x', 'tgt'])
                 for k, c in enumerate(q['cons']):
                     self.add_output(f'g{k}', np.zeros(len(c['C'])))
                     self.declare_partials(f'g{k}', 'x', val=np.array(c['C']))
@@ -260,14 +265,16 @@ class C21(Check):
                 k = self._hit('compute')
                 x = np.array(i['x'])
                 last_x['x'] = x.copy()
-                r = L @ (x - t)
+                r = L @ (x - np.array(i['tgt']))
                 o['f'] = 0.5 * r @ r * (np.nan if k == 'nan' else 1.0)
                 for j, c in enumerate(q['cons']):
                     o[f'g{j}'] = np.array(c['C']) @ x + np.array(c['d'])
 
             def compute_partials(self, i, J):
                 k = self._hit('compute_partials')
-                J['f', 'x'] = (L.T @ L @ (np.array(i['x']) - t))[None, :] * (np.nan if k == 'nan' else 1.0)
+                gx = (L.T @ L @ (np.array(i['x']) - np.array(i['tgt'])))[None, :]
+                J['f', 'x'] = gx * (np.nan if k == 'nan' else 1.0)
+                J['f', 'tgt'] = -gx
 
         p = om.Problem(name='q')
         m = p.model
@@ -315,7 +322,31 @@ class C21(Check):
             res['g'] = [np.array(p.get_val(f'g{k}')).copy() for k in range(len(q['cons']))]
             res['result_x'] = getattr(p.driver, 'result', None)
         st.inc('model_evaluations', counts['compute'])
-        return res
+        results = [res]
+        if second is not None and raised is None and res['success'] and not fired:
+            p.set_val('tgt', np.array(second['t2']))
+            last_x.clear()
+            raised2 = None
+            try:
+                with contextlib.redirect_stdout(io.StringIO()), contextlib.redirect_stderr(io.StringIO()):
+                    p.run_driver()
+            except om.AnalysisError:
+                raised2 = 'AnalysisError'
+            except Exception as e:      # noqa
+                import traceback
+                tb = traceback.extract_tb(e.__traceback__)
+                if not any((util.REPO + '/') in f.filename or 'scipy' in f.filename for f in tb):
+                    raise
+                raised2 = type(e).__name__
+                res_exc2 = f"{type(e).__name__}: {str(e)[:300]}"
+            res2 = {'raised': raised2, 'fired': list(fired), 'success': None, 'x': None, 'g': None, 'last_x': last_x.get('x'),
+                    'counts': dict(counts), 'exc': locals().get('res_exc2')}
+            if raised2 is None:
+                res2['success'] = bool(p.driver.result.success)
+                res2['x'] = np.array(p.get_val('x')).copy()
+                res2['g'] = [np.array(p.get_val(f'g{k}')).copy() for k in range(len(q['cons']))]
+            results.append(res2)
+        return results
 
     def run(self, plan, keep=False):
         reset_process_state(plan.get('run_seed', 0))
@@ -340,8 +371,16 @@ class C21(Check):
                     c.pop(k, None)
             variants.append(('unscaled-twin', q2))
         xs = {}
-        for tag, qq in variants:
-            r = self._solve(qq, plan.get('fault'), log, st, faults)
+        jobs = []
+        for tag0, qq0 in variants:
+            rs = self._solve(qq0, plan.get('fault'), log, st, faults, second=plan.get('second'))
+            jobs.append((tag0, qq0, rs[0], ref))
+            if len(rs) > 1:
+                qq_b = copy.deepcopy(qq0)
+                qq_b['t'] = list(plan['second']['t2'])
+                jobs.append((tag0 + '/second-run', qq_b, rs[1], qp_reference(qq_b)))
+                probes.inc('second_run_driver_after_parameter_change')
+        for tag, qq, r, ref in jobs:
             log.ev('result', tag, r['raised'], r['success'], r['x'] if r['x'] is not None else 'none', r['counts'])
             if r['raised'] is not None:
                 st.inc('runs_raised')
@@ -434,6 +473,10 @@ class C21(Check):
         if plan.get('twin_scaling'):
             c = copy.deepcopy(plan)
             c['twin_scaling'] = False
+            yield c
+        if plan.get('second'):
+            c = copy.deepcopy(plan)
+            c.pop('second')
             yield c
         if len(q['cons']) > 1:
             for i in range(len(q['cons'])):
